@@ -309,7 +309,7 @@ def check_vcard(kw, rec):
     try:
         data = helpers.make_vcard_data(**k)
     except ValueError as ex:
-        if 'geo' in str(ex).lower() or 'latitude' in str(ex).lower():
+        if bool(kw.get('lat')) != bool(kw.get('lng')):
             return None   # lat/lng of 0 counts as missing: documented precondition "specify latitude and longitude"
         rec.deviation('C16', 'vcard-refused', {'error': str(ex)[:150]})
         return None
